@@ -31,12 +31,18 @@ def eventsCmd (ws : List String) : String :=
     match ns.toInt?, toks.mapM tokenEvent with
     | some ni, some evs =>
       let n := ni.toNat
-      let res := String.ofList (evs.map fun e => if e.isSome then 'o' else 'e')
+      -- `basicrefuse n`: the wrapped collector refuses the n-th sample handed to it: that AddEvent fails, nothing is
+      -- persisted for it, and the event still counts in every later total
+      let resChars := (evs.foldl (fun (acc : List Char × Nat) e =>
+        if e.isSome then (acc.1 ++ [if kind == "basicrefuse" && acc.2 == n then 'e' else 'o'], acc.2 + 1)
+        else (acc.1 ++ ['e'], acc.2)) ([], 0)).1
+      let res := String.ofList resChars
       -- which of the gated collectors' outcomes are determined: percent > 100 / <= 0, interval 0 / one hour
       if (kind == "randomT" || kind == "randomF") && 1 ≤ ni && ni ≤ 100 then s!"{res} written=SUBSEQ" else
       if kind == "intervalT" then s!"{res} written=SUBSEQ" else
       let written : Option (List Perf) := match kind with
         | "basic" => some (basicRun none evs)
+        | "basicrefuse" => some (gatedRun none (List.replicate n true ++ [false] ++ List.replicate evs.length true) evs)
         | "sampling" => some (samplingRun { sample := n } evs)
         | "passthrough" => some (evs.filterMap passthroughStep)
         | "randomT" | "randomF" => some (gatedRun none (List.replicate evs.length (decide (ni > 100))) evs)
